@@ -6,7 +6,8 @@ import ast
 import re
 
 from .. import spec
-from ..automata import (DFA, Alphabet, RegexCompiler, dfa_all, dfa_char_at,
+from ..automata import (DFA, Alphabet, RegexCompiler, dfa_all, dfa_all_chars,
+                        dfa_char_at,
                         dfa_from_words_pred, dfa_len, dfa_none)
 from ..loader import AnalysisError, dotted
 
@@ -380,6 +381,14 @@ class Translator:
                         for cst in consts:
                             d = d | dfa_from_words_pred(ab, f.attr, cst)
                         return Lang(self.shift(d, k), self.NONE)
+                # var.isalnum() etc. on the whole string (or a tail of it)
+                if k is not None and not node.args and f.attr in (
+                        'isdigit', 'isalpha', 'isalnum', 'isspace',
+                        'isascii'):
+                    meth = f.attr
+                    d = dfa_all_chars(ab, lambda ch: getattr(ch, meth)(),
+                                      empty=(meth == 'isascii'))
+                    return Lang(self.shift(d, k), self.NONE)
                 # var[i].isdigit() etc.
                 i = self.char_index(f.value, var, env)
                 if i is not None and not node.args and f.attr in (
